@@ -292,6 +292,18 @@ theorem mutate_pres (E : Env) (st : St) (m : Mutation) (hP : P st.H) : P (mutate
       · exact runCont_pres P hadd hrm E st _ c _ hP
       · exact hP
     · exact hP
+  | listSlice c i j xs =>
+    simp only [mutate]; split
+    · split
+      · exact runCont_pres P hadd hrm E st _ c _ hP
+      · exact hP
+    · exact hP
+  | listStride c i step xs =>
+    simp only [mutate]; split
+    · split
+      · exact runCont_pres P hadd hrm E st _ c _ hP
+      · exact hP
+    · exact hP
   | listClear c =>
     simp only [mutate]; split
     · exact runCont_pres P hadd hrm E st _ c _ hP
